@@ -144,3 +144,29 @@ func TestVerif_C16_BackToBackKills(t *testing.T) {
 		}
 	}
 }
+
+// C16, many cycles on one directory: thirty incarnations in a row each acknowledge a few VAAs and are killed; nobody
+// ever closes the store gracefully. The store must keep reopening (within a deadline: a reopen that hangs is the
+// same as one that fails) and every acknowledged VAA must be there at the end.
+func TestVerif_C16_ManyCycles(t *testing.T) {
+	pl := vh.NewPlain(t, "C16")
+	defer pl.Flush()
+	cycles := 30
+	if vh.Thorough() {
+		cycles = 60
+	}
+	c := c16Case{Seed: 4242, IDSpace: 40}
+	for i := 0; i < cycles; i++ {
+		c.Cycles = append(c.Cycles, c16Cycle{N: 3, Kill: "self", K: 2, NoVerify: i != cycles-1})
+	}
+	var rc c16Case
+	if pl.ReplayCase(&rc) {
+		c = rc
+	}
+	v, o := runC16(c)
+	o.NonTrivial = true
+	pl.Record(map[string]int{"cycles": len(c.Cycles), "writes_per_cycle": 3}, o)
+	if v != nil {
+		pl.Violate(v, c)
+	}
+}
